@@ -4,13 +4,11 @@ import json, os
 V = os.path.dirname(os.path.dirname(os.path.abspath(__file__)))
 props = [json.loads(l) for l in open(os.path.join(V, "properties.jsonl"))]
 
-CHECKS = {
- "C19": dict(
-   technique="Lean 4 theorems (omega over unbounded Nat/Int) about a model using constants regenerated from the source + exhaustive differential run (all 2^24 values / all encoder triples; thorough: all 2^32) against model and RFC spec",
-   text="Machine-checked proof: Props/C19.lean proves for all naturals/integers that the model of EncodeBlockOption/DecodeBlockOption equals the RFC 7959 mapping (total on 24-bit values, mutual inverses, rejects everything else, sizes 2^(s+4), BERT multiples of 1024). The model's constants and size table are regenerated from /repo on every run; model, RFC spec and the real functions are compared on the complete domain.",
-   note="Trusted: Lean kernel, axioms propext/Classical.choice/Quot.sound, the extractor (compiles against /repo and prints constants), the Go harness and compiled Lean driver, Go uint32/int64 semantics as modelled (DESIGN.md §3).",
-   ref="§5 C19"),
-}
+CHECKS = {}
+MD = os.path.join(V, "checks", "manifest")
+for f in sorted(os.listdir(MD)):
+    if f.endswith(".json"):
+        CHECKS[f[:-5]] = json.load(open(os.path.join(MD, f)))
 PENDING = "not yet built in this round (claimed in DESIGN.md; check under construction)"
 
 checks, na = [], []
